@@ -71,6 +71,16 @@ func (b *B) Call(n int, ellipsis bool) {
 	b.cb.Call(n, ellipsis)
 	b.post("Call", n, 0)
 }
+// CallLHS is Call with the number of values the statement expects (XGo passes 2 for `a, ok := f(x)`).
+func (b *B) CallLHS(n, lhs int, ellipsis bool) {
+	b.pre("Call")
+	var flags gogen.InstrFlags
+	if ellipsis {
+		flags = gogen.InstrFlagEllipsis
+	}
+	b.cb.CallWith(n, lhs, flags)
+	b.post("Call", n, 0)
+}
 func (b *B) CallWithEx(n int, flags gogen.InstrFlags) error {
 	b.pre("CallWithEx")
 	err := b.cb.CallWithEx(n, 0, flags)
